@@ -6,6 +6,8 @@
 //!   simbus digest <prop> <runs> <seed> <workers> print the batch digest (determinism self-test)
 //!   simbus trace <prop> <seed> <run>             print the full trace of one run
 
+#![allow(dead_code)]
+
 mod calls;
 mod cfg;
 mod findings;
